@@ -14,6 +14,7 @@ pub mod c04;
 pub mod c10;
 pub mod smooth;
 pub mod classify;
+pub mod sinks;
 
 pub fn lookup(id: &str) -> Option<Prop> {
     Some(match id {
@@ -28,6 +29,7 @@ pub fn lookup(id: &str) -> Option<Prop> {
         "C06" => Prop { header: smooth::H06, generate: smooth::gen06, exec: smooth::exec06 },
         "C08" => Prop { header: classify::H08, generate: classify::gen08, exec: classify::exec08 },
         "C09" => Prop { header: classify::H09, generate: classify::gen09, exec: classify::exec09 },
+        "C11" => Prop { header: sinks::HEADER, generate: sinks::generate, exec: sinks::exec },
         _ => return None,
     })
 }
